@@ -34,7 +34,10 @@ def replay_or(ctx, engine, cases):
 
 
 def run_C04(ctx):
-    cfg = "MC_BackendServer_" + ctx.tier
+    # for C04 the handler of a negotiation request may fail too: REPLY_ACK is in force once it was offered and the frontend
+    # acknowledged it, whatever the device's handler said to SET_PROTOCOL_FEATURES (the histories of the other properties that
+    # share this model keep these handlers succeeding: what a refused negotiation means for gating is left open there)
+    cfg = "MC_BackendServer_negfail_" + ctx.tier
     cases = group_server_cases(ctx.tlc_mc("MC_BackendServer", cfg))
     if ctx.tier == "thorough":
         # the same stimuli through the handler implementing the interior-mutability trait directly
@@ -116,6 +119,10 @@ def session_run(ctx):
     stride = 5 if ctx.tier == "quick" else 2
     for j, (script, side) in enumerate((([0], "fe"), ([1], "fe"), ([0, 0, 13], "fe"), ([0], "be"), ([5, 0, 8], "be"))):
         sess = sess + [dict(c, sendfault=script, faultside=side) for c in base[j::stride * 5]]
+    # (frontend side only: the request server hands a temporary receive condition that meets the first byte of a *body* back
+    # to its caller by design -- non-blocking use -- so what happens then is the caller's business, not the library's)
+    for j, (errs, side) in enumerate((([11], "fe"), ([4, 11], "fe"), ([4], "fe"), ([11, 11], "fe"))):
+        sess = sess + [dict(c, recvfault=errs, faultside=side) for c in base[(5 + j)::stride * 5]]
     sess = replay_or(ctx, "session", sess)
     tr = ctx.harness("session", sess, shards=12)
     viol = ctx.tlc_tv("TV_Session", tr, "session")
@@ -172,12 +179,10 @@ def group_client_cases(cases, tier):
             seen.add(k)
             out.append(dict(steps=steps, slow=True))
         elif last["op"] in STATE_CHANGING_OPS:
-            if c.get("act") == "reject":
-                # a negotiation call the endpoint refuses must leave nothing behind: every feature-dependent call is
-                # tried after it (the model's state is unchanged, so each of them is still expected to be refused)
-                out.append(dict(steps=steps + [dict(op=o, cls=cl, v=[], rv=[], peer="auto") for o, cl in GATED_PROBES]))
-            else:
-                out.append(dict(steps=steps))
+            # whatever a negotiation call did -- refused (it must leave nothing behind), or accepted (it must have exactly the
+            # effect the model says, e.g. SET_FEATURES naming a bit the backend never offered acknowledges nothing) -- every
+            # feature-dependent call is tried after it and judged against the model's state
+            out.append(dict(steps=steps + [dict(op=o, cls=cl, v=[], rv=[], peer="auto") for o, cl in GATED_PROBES + [("get_protocol_features", "ok")]]))
         else:
             key = json.dumps(prefix, sort_keys=True)
             by_prefix.setdefault(key, dict(steps=list(prefix)))["steps"].append(last)
@@ -379,6 +384,10 @@ def run_C08(ctx):
     for st in stim:
         step = dict(c=st["c"], nr=False, h="ok", v=[], var="fixed", seg=st["seg"], cut=st["cut"])
         cases.append(dict(dev=dict(vf=[30], pf=[]), steps=SRV_PREFIX + [step]))
+        if st["cut"] >= 0 and not st["seg"] and st["c"] in (2, 9, 18):
+            # the same cut, but the peer goes away abruptly (it closes with a reply still unread: the server sees a
+            # connection reset, not an orderly end of stream) -- still never a clean disconnect inside a message
+            cases.append(dict(dev=dict(vf=[30], pf=[]), steps=SRV_PREFIX + [dict(step, reset=True)]))
     # the same splits / cuts for the backend-initiated request server (FrontendReqHandler)
     bcases = []
     for st in stim:
@@ -455,6 +464,11 @@ def bereq_run(ctx, hostile=False, functional=True):
         for i, c in enumerate(full):
             steps = c["steps"]
             sess.append(dict(mode="pair", adapter="mutex" if i % 3 else "direct", steps=steps))
+            if i % 4 == 1:
+                # the same history with transient receive conditions on the proxy's socket: the first attempt(s) to read each
+                # acknowledgement meet EAGAIN (a receive timeout) / EINTR (a signal) before any byte -- what the handler sees and
+                # which acknowledgement answers which request must not depend on it
+                sess.append(dict(mode="pair", adapter="mutex", steps=steps, recvfault=([11], [4], [11, 4, 11])[(i // 4) % 3]))
             if i % 2 == 0:
                 sess.append(dict(mode="rawpeer", steps=steps))
             else:
@@ -785,7 +799,7 @@ def run_C10(ctx):
         return ctx.finish("model_checking", "replay of a hostile-answer stimulus (self-deadlock on an error path)", ASSUME_COMMON, viol)
     ns = (2,) if ctx.tier == "quick" else (2, 3)
     cases = []
-    for cfgp in sorted(glob.glob(os.path.join(ROOT, "spec", "mc", "MC_Txn_*.cfg"))):
+    for cfgp in sorted(glob.glob(os.path.join(ROOT, "spec", "mc", "MC_Txn_*.cfg")) + glob.glob(os.path.join(ROOT, "spec", "mc", "MC_TxnCrash_*.cfg"))):
         name = os.path.basename(cfgp)[:-4]
         n = int(name.split("_")[2])
         kinds = name.split("_")[3:]
@@ -1014,21 +1028,26 @@ def run_C17(ctx):
         ASSUME_COMMON, viol)
 
 
-POOL_LO = [0, 2, 1, 8, 0]
-POOL_HI = [2, 4, 3, 10, 2]
+POOL_LO = [0, 2, 1, 8, 0, 4]
+POOL_HI = [2, 4, 3, 10, 2, 6]
+NPOOL = 6
 MEM_NEG = dict(op="negotiate", feats=[30], pf=[3, 13, 15, 1])
 
 
-def mem_pool(rnd):
+def mem_pool(rnd, contig=False):
     G = rnd.choice([0x1000, 0x10_0000, 0x7f00_0000_0000, (1 << 64) - 0x40000])
-    uas = [0x7000_0000_0000, 0x1000, (1 << 64) - 0x100000, 0x5555_0000_0000, 0x1234_5678_0000]
+    uas = [0x7000_0000_0000, 0x1000, (1 << 64) - 0x100000, 0x5555_0000_0000, 0x1234_5678_0000, 0x2222_0000_0000]
     rnd.shuffle(uas)
-    if rnd.random() < 0.5:
+    if contig:
+        # regions 0, 1, 5 (adjacent in guest-physical space) are adjacent in the frontend's address space as well
+        uas[1] = uas[0] + 0x2000
+        uas[5] = uas[1] + 0x2000
+    if rnd.random() < 0.5 and not contig:
         # region 4 covers the guest range of region 0 with another file; in half of the pools it also has the same
         # user address (the same memory re-backed by a different file / offset)
         uas[4] = uas[0]
     pool = [dict(gpa=limbs(G + POOL_LO[r] * 0x1000), size=limbs((POOL_HI[r] - POOL_LO[r]) * 0x1000), ua=limbs(uas[r]),
-                 off=limbs(rnd.choice([0, 0x1000, 0x3000]))) for r in range(5)]
+                 off=limbs(rnd.choice([0, 0x1000, 0x3000]))) for r in range(NPOOL)]
     if uas[4] == uas[0] and pool[4]["off"] == pool[0]["off"]:
         pool[4]["off"] = limbs(0x2000)
     return pool, G
@@ -1046,7 +1065,7 @@ def mem_letter(a, k=0):
 
 def mem_probes(pool, G, xl_rid):
     ps = []
-    for r in range(5):
+    for r in range(NPOOL):
         size = (POOL_HI[r] - POOL_LO[r]) * 0x1000
         ps.append(dict(op="probe_mem", rid=r, o=limbs(0), page=POOL_LO[r]))
         ps.append(dict(op="probe_mem", rid=r, o=limbs(size - 8), page=POOL_HI[r] - 1))
@@ -1057,7 +1076,7 @@ def mem_probes(pool, G, xl_rid):
     return ps
 
 
-def mem_reconnect_tail(pool, G, rids):
+def mem_reconnect_tail(pool, G, rids, contig=False):
     """After the history (whose last update may have been refused, which ends the connection): connect again to the same
     daemon and check the translation of every region in turn (a refused translation ends the connection again)."""
     tail = []
@@ -1066,7 +1085,8 @@ def mem_reconnect_tail(pool, G, rids):
         tail += [dict(op="reconnect"), MEM_NEG, mem_probes(pool, G, r)[-1]]
         # the first user address past the region is contained in no region (the pool's user ranges are far apart),
         # the last descriptor-sized slot inside it is
-        tail += [dict(op="reconnect"), MEM_NEG, dict(op="set_vring_addr", q=0, rid=r, odesc=limbs(size), oavail=limbs(0x102), oused=limbs(0x204), edge="end")]
+        if not (contig and r in (0, 1)):     # (there the next user address belongs to the neighbouring region)
+            tail += [dict(op="reconnect"), MEM_NEG, dict(op="set_vring_addr", q=0, rid=r, odesc=limbs(size), oavail=limbs(0x102), oused=limbs(0x204), edge="end")]
         tail += [dict(op="reconnect"), MEM_NEG, dict(op="set_vring_addr", q=0, rid=r, odesc=limbs(size - 16), oavail=limbs(size - 2), oused=limbs(size - 4), edge="last")]
     return tail
 
@@ -1076,18 +1096,19 @@ def run_C13(ctx):
     rnd = random.Random(ctx.seed)
     cases = []
     for i, c in enumerate(trans):
-        pool, G = mem_pool(rnd)
+        contig = i % 2 == 0
+        pool, G = mem_pool(rnd, contig)
         letters = [mem_letter(a, i + j) for j, a in enumerate(c["steps"])]
         steps = [MEM_NEG]
         for j, lt in enumerate(letters):
             steps.append(lt)
             if ctx.tier == "thorough" and j < len(letters) - 1:
-                steps += mem_probes(pool, G, rnd.randrange(5))[:-1]
+                steps += mem_probes(pool, G, rnd.randrange(NPOOL))[:-1]
         # the translation probe of a region outside the table ends the connection: one session per probed region
-        for xl in range(5):
-            st = steps + (mem_probes(pool, G, xl) if xl == i % 5 else mem_probes(pool, G, xl)[-1:])
-            if xl == i % 5:
-                st = st + mem_reconnect_tail(pool, G, [(xl + 1 + k) % 5 for k in range(5)])
+        for xl in range(NPOOL):
+            st = steps + (mem_probes(pool, G, xl) if xl == i % NPOOL else mem_probes(pool, G, xl)[-1:])
+            if xl == i % NPOOL:
+                st = st + mem_reconnect_tail(pool, G, [(xl + 1 + k) % NPOOL for k in range(NPOOL)], contig)
             cases.append(dict(nq=1, masks=[1], pool=pool, vring="rwlock" if i % 2 else "mutex", adapter=("arc", "mutex", "rwlock")[i % 3], steps=st))
     # all histories (no state merging) over single-region letters: history-dependent slips (stale translation entries ...)
     hist = ctx.tlc_mc("MC_Mem", "MC_Mem_hist_" + ctx.tier, max_cases=900000)
@@ -1098,13 +1119,14 @@ def run_C13(ctx):
     else:
         hist = random.Random(ctx.seed).sample(hist, min(len(hist), 40000))
     for i, c in enumerate(hist):
-        pool, G = mem_pool(rnd)
+        contig = i % 2 == 0
+        pool, G = mem_pool(rnd, contig)
         letters = [mem_letter(a, i + j) for j, a in enumerate(c["steps"])]
         touched = sorted({r for lt in letters for r in (lt.get("rids") or [lt.get("rid")])})
         for k, xl in enumerate(touched):
             st = [MEM_NEG] + letters + (mem_probes(pool, G, xl) if k == 0 else mem_probes(pool, G, xl)[-1:])
             if k == 0:
-                st = st + mem_reconnect_tail(pool, G, range(5))
+                st = st + mem_reconnect_tail(pool, G, range(NPOOL), contig)
             cases.append(dict(nq=1, masks=[1], pool=pool, vring="rwlock" if i % 2 else "mutex", steps=st))
     cases = replay_or(ctx, "daemon", cases)
     tr = ctx.harness("daemon", cases, shards=12, crash_is_data=True)
@@ -1321,13 +1343,17 @@ def run_C16(ctx):
         if len(sch) > (400 if ctx.tier == "quick" else 6000):
             sch = rnd.sample(sch, 400 if ctx.tier == "quick" else 6000)
         for j, c in enumerate(sch):
-            cases.append(dict(shutdown=True, callers=c["callers"], peer=c["peer"], peer_closes=c["peer_closes"], sched=c["sched"],
-                              predicted=dict(err=c["err"], wait=c["wait"])))
+            basec = dict(shutdown=True, callers=c["callers"], peer=c["peer"], peer_closes=c["peer_closes"], sched=c["sched"],
+                         predicted=dict(err=c["err"], wait=c["wait"]))
+            cases.append(basec)
+            if c["callers"] >= 1 and (n <= 1 or j % 3 == 0):
+                # the same schedule with the owner already blocked inside wait() while the shutdown requests arrive
+                cases.append(dict(basec, wait_first=True))
             if c["peer_closes"] and c["peer"] != "full_reply" and (n <= 1 or j % 4 == 0):
                 # the same schedule with a peer that only ends its own direction and keeps reading: the daemon sees the same
                 # end-of-stream, and the peer must see one from the daemon when it stops serving (not for a request with a reply:
                 # there the model's closed peer makes the daemon's write fail, which a half-closed peer does not)
-                cases.append(dict(cases[-1], halfclose=True))
+                cases.append(dict(basec, halfclose=True))
     # peer close at every byte offset of a bodied and a body-less request, through serve()
     for bodied, ln in ((True, 20), (False, 12)):
         for cut in range(0, ln + 1):
